@@ -262,7 +262,7 @@ theorem cmdUser_clean {c c' : Ctx} {sid : Id} {m : IrcMsg} (hc : CCtx c) (hm : C
   intro s hs
   unfold updateIrcPrefix
   clean_rec
-  all_goals exact clean_takeChars (clean_of_param hu hm) _
+  all_goals exact clean_takeChars (clean_firstWord (clean_of_param hu hm)) _
 
 theorem cmdPass_clean {c c' : Ctx} {sid : Id} {m : IrcMsg} (hc : CCtx c) (hm : CleanMsg m)
     (hr : cmdPass c sid m = .ok c') : CCtx c' := by
